@@ -1,7 +1,8 @@
 (* C05 - the incremental payload stream obeys the delivery protocol.  Theorems only; proofs in
    Incr/StreamQueueProps.v, Incr/WorkQueueProps.v, Incr/ExploreProps.v. *)
 From GV Require Import Base.Prelude Incr.Protocol Incr.WorkQueue Incr.Publisher Incr.StreamQueue
-  Incr.Explore Incr.Universe Incr.StreamQueueProps Incr.WorkQueueProps Incr.ExploreProps.
+  Incr.NodeProtocol Incr.Explore Incr.Flat Incr.Universe Incr.StreamQueueProps Incr.WorkQueueProps
+  Incr.PublisherProps Incr.FlatProps Incr.ExploreProps.
 
 (* Stream queue order law: for every sequence of pushes, future settlements and consumer pulls, the
    entries delivered in batches, then the terminal entry (end / failure, if the iteration ended),
@@ -30,6 +31,54 @@ Theorem C05_nothing_after_termination : forall E bs s,
 Proof. exact run_batches_stopped. Qed.
 Print Assumptions C05_nothing_after_termination.
 
+(* Publisher + protocol, general: EVERY trace of work-queue event batches that is well formed at node
+   level (NodeProtocol.wq_wf: nodes announced once and before any event about them, values / success
+   / failure only for announced unfinished nodes - the failure of a never announced group is
+   ignored -, stream values continue at the next index, no group announced while an enclosing group
+   is still open at the end of the batch, termination last with nothing open) is published, for any
+   batching, as a payload stream accepted by the protocol validator: fresh ids never reused, every
+   incremental entry targets a pending id of the right kind, every id completed once, nesting,
+   contiguous stream items, hasNext true except on the last payload. *)
+Theorem C05_publisher_protocol : forall E ig is_ bs,
+  wq_wf E ig is_ bs = true -> valid_prefix (e_parent E) (publish E ig is_ bs) = true.
+Proof. exact publish_valid_prefix. Qed.
+Print Assumptions C05_publisher_protocol.
+
+Theorem C05_publisher_protocol_complete : forall E ig is_ bs,
+  wq_wf_closed E ig is_ bs = true -> valid (e_parent E) (publish E ig is_ bs) = true.
+Proof. exact publish_valid_complete. Qed.
+Print Assumptions C05_publisher_protocol_complete.
+
+(* The core, by induction over ALL runs, for FLAT work (partial for that reason: groups with parents,
+   tasks in any number of groups, root streams, but no nested work carried by task results or
+   stream items).  For every flat work description whose initial graph state passes the executable
+   check [init_ok] (true for every generated graph, evaluated by the harness), and EVERY enabled
+   sequence of graph-event batches - any length, any batching -, the payload stream of
+   publish (run ...) is accepted by the protocol validator as a prefix, and as a complete stream
+   once the queue has stopped. *)
+Theorem C05_protocol_flat_partial : forall E w bs,
+  flatb E = true -> init_ok E w = true ->
+  enabled_batches E (snd (init E w)) bs = true ->
+  valid_prefix (e_parent E) (respond E w bs) = true /\
+  (stopped (fst (run_batches E (snd (init E w)) bs)) = true -> valid (e_parent E) (respond E w bs) = true).
+Proof. exact flat_protocol. Qed.
+Print Assumptions C05_protocol_flat_partial.
+
+(* The graph invariant [Phi] (unique group nodes; every group is listed as a child of at most one
+   live node, only of its parent, and never once it has been announced; root groups = announced
+   unfinished groups, all distinct, each with a node and with no enclosing group left in the graph;
+   stream positions agree with the delivered items) is preserved by EVERY enabled graph event, the
+   emitted work-queue events are accepted by the node-level protocol monitor, the group graph only
+   shrinks, and no enclosing group of a newly announced group is left in the graph (a failed or
+   finished group's subtree is removed or promoted entirely).  Flat work (partial). *)
+Theorem C05_graph_inv_flat_partial : forall E s nst e,
+  flatb E = true -> Phi E s nst -> enabled1 E s e = true ->
+  let '(s', evs) := step E s e in
+  exists nst', nsteps nst evs = Some nst' /\ Phi E s' nst' /\
+    shrink (gnodes s) (gnodes s') /\ agok E s' (announced_groups evs).
+Proof. intros E s nst e Hf. exact (step_ok E s nst e (flatb_tasks E Hf) (flatb_items E Hf)). Qed.
+Print Assumptions C05_graph_inv_flat_partial.
+
 (* Bounded exhaustive exploration (partial: an explicit finite family of work graphs, one graph
    event per batch).  For every graph of [universe] and EVERY enabled sequence of at most 5 graph
    events over the graph's event alphabet: the graph invariant [inv] holds in the reached state
@@ -37,20 +86,22 @@ Print Assumptions C05_nothing_after_termination.
    non-empty with all their tasks running and no enclosing group left in the graph, ...), the
    queue is never stuck, a failed task's group subtrees are removed entirely, the payload stream
    of publish (run ...) is a valid prefix of the protocol - and a complete valid stream once the
-   queue has stopped -, and values/announcements respect the creation order. *)
+   queue has stopped -, values/announcements respect the creation order, and the work-queue event
+   trace is well formed at node level (the hypothesis of C05_publisher_protocol). *)
 Theorem C05_protocol_and_graph_inv_bounded_partial : forall E w, In (E, w) universe ->
   forall evs, (length evs <= 5)%nat -> Forall (fun e => In e (candidates E)) evs ->
   enabled_path E (snd (init E w)) evs = true -> check_path E w evs = true.
 Proof. exact bounded_universe. Qed.
 Print Assumptions C05_protocol_and_graph_inv_bounded_partial.
 
-(* The same for all enabled sequences of up to 10 events on the graphs of the family with a small
-   state space; for these graphs this covers every run to termination. *)
+(* For the graphs of the family with a small state space (38 of 49) the exploration is complete:
+   EVERY enabled event sequence, of any length (no enabled sequence is longer than 8 events; all
+   runs to termination are covered). *)
 Theorem C05_protocol_and_graph_inv_small_graphs_partial : forall E w,
   In (E, w) universe -> small_graph (E, w) = true ->
-  forall evs, (length evs <= 10)%nat -> Forall (fun e => In e (candidates E)) evs ->
+  forall evs, Forall (fun e => In e (candidates E)) evs ->
   enabled_path E (snd (init E w)) evs = true -> check_path E w evs = true.
-Proof. exact bounded_small. Qed.
+Proof. exact small_graphs_all_sequences. Qed.
 Print Assumptions C05_protocol_and_graph_inv_small_graphs_partial.
 
 (* what [check_path] says, as separate facts *)
@@ -64,7 +115,9 @@ Theorem C05_check_path_meaning : forall E w evs,
   /\ last_step_ok E s0 evs = true
   /\ valid_prefix (e_parent E) ps = true
   /\ (stopped s1 = true -> valid (e_parent E) ps = true)
-  /\ creation_ok E (concat outs) = true.
+  /\ creation_ok E (concat outs) = true
+  /\ wq_wf E ig is_ outs = true
+  /\ wq_wf_closed E ig is_ outs = stopped s1.
 Proof. exact check_path_facts. Qed.
 Print Assumptions C05_check_path_meaning.
 
@@ -76,6 +129,14 @@ Proof. reflexivity. Qed.
 Example C05_example_invalid_unannounced_completion :
   valid [] [mkPayload [mkPend 0 [1] 1 false 0] [] [] true; mkPayload [] [] [0; 2] false] = false.
 Proof. reflexivity. Qed.
+
+(* a flat graph with a parent, a child and a shared task: the hypotheses of the flat theorems hold *)
+Example C05_example_flat :
+  let E := mkEnv [(2, 1)] [(1, [1; 2]); (2, [1]); (3, [2])] [] [(1, [no_work; no_work])] in
+  let w := mkWork [1; 2] [1; 2; 3] [1] in
+  flatb E = true /\ init_ok E w = true
+  /\ enabled_batches E (snd (init E w)) [[TaskOk 2; Items 1 1 false]; [TaskOk 1]; [TaskOk 3; Items 1 1 true; StreamOk 1]] = true.
+Proof. repeat split; reflexivity. Qed.
 
 (* a parent/child graph run to termination: the hypotheses of the bounded theorems are satisfiable *)
 Example C05_example_run :
